@@ -70,7 +70,8 @@ def rt_written(obs):
         if not m:
             return None, False
         st = m.group(2)
-        if m.group(3) == "true" and st == "299":
+        pc = re.search(r",code=(\d+)", part)
+        if m.group(3) == "true" and st == (pc.group(1) if pc else "299"):
             st = "code"
         rw.append("%s:%s,%s,%s,%s" % (m.group(1), st, m.group(4), m.group(5), m.group(6)))
         if m.group(7) != "1":
